@@ -64,25 +64,51 @@ def standard_traces(rep, tier):
                    'pw_same': DP.close(res, pw, 1e-10), '_pw': [float(x) for x in pw]}]
             out.append(DP.to_trace(c, {'tol': 1e9, 'min': 1, 'max': None}, ev, 'standard D=%d (%d,%d) bnd=%s %s' % (D, lmin, lmax, bnd, func)))
             rep.count(1, key=('standard', D, lmin, lmax, bnd, func))
-    for D, tol in ([(2, 1e-3), (3, 1e-2)] if tier == 'quick' else [(2, 1e-4), (3, 1e-3), (4, 1e-2)]):
-        c = dict(strategy='dimadaptive', D=D, lmin=1, lmax=2, func='cornerpeak')
-        a, b = np.zeros(D), np.ones(D)
-        f = DP.make_function('cornerpeak', D)
-        grid = TrapezoidalGrid(a=a, b=b, boundary=True)
-        op = Integration(f=f, grid=grid, dim=D, reference_solution=np.atleast_1d(f.getAnalyticSolutionIntegral(a, b)))
-        combi = DimAdaptiveCombi(a, b, operation=op)
-        with impl.quiet(), impl.watchdog(240):
-            scheme, _, res, errors, nps = combi.perform_combi(1, 2, tol)
-        f2 = DP.make_function('cornerpeak', D)
-        ind = np.zeros(1)
-        for g in scheme:
-            g2 = TrapezoidalGrid(a=a, b=b, boundary=True)
-            ind = ind + g.coefficient * np.asarray(g2.integrate(f2, g.levelvector, a, b), dtype=float)
-        ev = [{'k': 'E', 'eok': True, 'np': int(combi.get_total_num_points()), 'nonneg': True, 'err_true': True, 'np_true': True,
-               'res_comb': DP.close(res, ind), '_res': [float(x) for x in np.atleast_1d(res)], '_indep': [float(x) for x in ind]},
-              {'k': 'Ret', 'lens': [], 'final_comb': DP.close(res, ind), 'reeval_same': True, 'reeval_flag_same': True, 'pw_same': True}]
-        out.append(DP.to_trace(c, {'tol': 1e9, 'min': 1, 'max': None}, ev, 'dimadaptive D=%d tol=%g (%d grids)' % (D, tol, len(scheme))))
-        rep.count(1, key=('dimadaptive', D, tol))
+    # dimension-adaptive strategy: several runs per dimension in one process - different integrands, domains, grid families, and the
+    # same driver object used twice (results of one run must never leak into another)
+    from sparseSpACE.Grid import ClenshawCurtisGrid
+    runs = [(2, 1e-3, 'cornerpeak', None, 'trapezoid'), (2, 1e-3, 'product', None, 'trapezoid'), (2, 1e-2, 'cornerpeak', ([0.0, 0.5], [2.0, 1.5]), 'trapezoid'),
+            (2, 1e-3, 'cornerpeak', None, 'clenshaw'), (3, 1e-2, 'cornerpeak', None, 'trapezoid'), (3, 1e-2, 'product', None, 'trapezoid')]
+    if tier == 'thorough':
+        runs += [(2, 1e-4, 'vector', None, 'trapezoid'), (3, 1e-3, 'cornerpeak', ([0.0, 0.0, 0.0], [1.0, 2.0, 0.5]), 'trapezoid'), (4, 1e-2, 'cornerpeak', None, 'trapezoid'),
+                 (4, 1e-2, 'product', None, 'trapezoid')]
+    mkgrid = lambda kind, a, b: TrapezoidalGrid(a=a, b=b, boundary=True) if kind == 'trapezoid' else ClenshawCurtisGrid(a=a, b=b, boundary=True)
+    previous = {}
+    for D, tol, func, box, gk in runs:
+        c = dict(strategy='dimadaptive', D=D, lmin=1, lmax=2, func=func)
+        a, b = (np.zeros(D), np.ones(D)) if box is None else (np.array(box[0]), np.array(box[1]))
+        for reuse in (False, True):
+            name = 'dimadaptive D=%d %s box=%s grid=%s tol=%g%s' % (D, func, box, gk, tol, ' (driver object of the previous run re-used)' if reuse else '')
+            try:
+                f = DP.make_function(func, D)
+                if reuse and (D, gk, box is None) in previous:
+                    combi, op = previous[(D, gk, box is None)]
+                    op.f = f
+                else:
+                    grid = mkgrid(gk, a, b)
+                    op = Integration(f=f, grid=grid, dim=D, reference_solution=np.atleast_1d(f.getAnalyticSolutionIntegral(a, b)))
+                    combi = DimAdaptiveCombi(a, b, operation=op)
+                if reuse and (D, gk, box is None) not in previous:
+                    continue
+                with impl.quiet(), impl.watchdog(240):
+                    scheme, _, res, errors, nps = combi.perform_combi(1, 2, tol)
+                previous[(D, gk, box is None)] = (combi, op)
+                f2 = DP.make_function(func, D)
+                ind = 0.0
+                for g in scheme:
+                    g2 = mkgrid(gk, a, b)
+                    ind = ind + g.coefficient * np.atleast_1d(np.asarray(g2.integrate(f2, g.levelvector, a, b), dtype=float))
+            except impl.Timeout:
+                rep.exclude(name + ': timeout')
+                continue
+            except Exception as ex:
+                rep.violation('C05_NoException', {'strategy': 'dimadaptive', 'exception': type(ex).__name__, 'reuse': reuse}, {'case': name, 'exception': repr(ex)}, what='%s raised %r' % (name, ex))
+                continue
+            ev = [{'k': 'E', 'eok': True, 'np': int(combi.get_total_num_points()), 'nonneg': True, 'err_true': True, 'np_true': True,
+                   'res_comb': DP.close(res, ind), '_res': [float(x) for x in np.atleast_1d(res)], '_indep': [float(x) for x in np.atleast_1d(ind)]},
+                  {'k': 'Ret', 'lens': [], 'final_comb': DP.close(res, ind), 'reeval_same': True, 'reeval_flag_same': True, 'pw_same': True}]
+            out.append(DP.to_trace(c, {'tol': 1e9, 'min': 1, 'max': None}, ev, name + ' (%d grids)' % len(scheme)))
+            rep.count(1, key=('dimadaptive', D, tol, func, str(box), gk, reuse))
     return out
 
 
@@ -185,6 +211,30 @@ def run(tier, seed):
                 except Exception as ex:
                     rep.violation('C05_NoException', {'strategy': c['strategy'], 'exception': type(ex).__name__, 'second_run': True},
                                   {'config': str(c), 'exception': repr(ex)}, what='%s second run on the same driver object raised %r' % (name, ex))
+    # stops caused by the compute-time limit (the third stopping criterion): the reported value must be a combination there too
+    for c in configs(tier)[: (4 if tier == 'quick' else 100)]:
+        name = '%s D=%d (%d,%d) %s' % (c['strategy'], c['D'], c['lmin'], c['lmax'], c['func'])
+        for mt in ((1e-9, 0.05) if tier == 'quick' else (1e-9, 0.02, 0.1, 0.4)):
+            lims = {'tol': -1.0, 'min': 1, 'max': 3000}
+            try:
+                S, rec, ret = DP.run_once(c, lims, checks=True, max_time=mt)
+                ev = DP.ret_event(S, rec, ret, c, lims, with_c05=False)
+                ind = DP.independent_combination(S)
+                pw = DP.points_and_weights_value(S)
+                ev['final_comb'] = DP.close(ret[3], ind)
+                ev['pw_same'] = DP.close(ret[3], pw, 1e-10)
+                ev['_pw'] = None if pw is None else [float(x) for x in pw]
+            except impl.Timeout:
+                rep.exclude('%s max_time=%g: timeout' % (name, mt))
+                continue
+            except Exception as ex:
+                rep.violation('C05_NoException', {'strategy': c['strategy'], 'exception': type(ex).__name__, 'max_time': True},
+                              {'config': str(c), 'max_time': mt, 'exception': repr(ex)}, what='%s with max_time=%g raised %r' % (name, mt, ex))
+                continue
+            tr = DP.to_trace(c, lims, rec.events + [ev], name + ' stopped by max_time=%g after %d evaluations' % (mt, len([e for e in rec.events if e['k'] == 'E'])))
+            tr['_sig'] = {'reeval_doubles': False, 'reeval_flag_doubles': False, 'max_time': True}
+            traces.append(tr)
+            rep.count(1, key=(name, 'max_time', mt))
     from harness.drivers.c13_driver import conclude
     return conclude(rep, traces, ('C05_',))
 
@@ -210,5 +260,29 @@ def replay(path, seed):
     rep.count(1, key='a')
     rep.count(1, key='b')
     rep.sample({'replayed': path})
+    # stops caused by the compute-time limit (the third stopping criterion): the reported value must be a combination there too
+    for c in configs(tier)[: (4 if tier == 'quick' else 100)]:
+        name = '%s D=%d (%d,%d) %s' % (c['strategy'], c['D'], c['lmin'], c['lmax'], c['func'])
+        for mt in ((1e-9, 0.05) if tier == 'quick' else (1e-9, 0.02, 0.1, 0.4)):
+            lims = {'tol': -1.0, 'min': 1, 'max': 3000}
+            try:
+                S, rec, ret = DP.run_once(c, lims, checks=True, max_time=mt)
+                ev = DP.ret_event(S, rec, ret, c, lims, with_c05=False)
+                ind = DP.independent_combination(S)
+                pw = DP.points_and_weights_value(S)
+                ev['final_comb'] = DP.close(ret[3], ind)
+                ev['pw_same'] = DP.close(ret[3], pw, 1e-10)
+                ev['_pw'] = None if pw is None else [float(x) for x in pw]
+            except impl.Timeout:
+                rep.exclude('%s max_time=%g: timeout' % (name, mt))
+                continue
+            except Exception as ex:
+                rep.violation('C05_NoException', {'strategy': c['strategy'], 'exception': type(ex).__name__, 'max_time': True},
+                              {'config': str(c), 'max_time': mt, 'exception': repr(ex)}, what='%s with max_time=%g raised %r' % (name, mt, ex))
+                continue
+            tr = DP.to_trace(c, lims, rec.events + [ev], name + ' stopped by max_time=%g after %d evaluations' % (mt, len([e for e in rec.events if e['k'] == 'E'])))
+            tr['_sig'] = {'reeval_doubles': False, 'reeval_flag_doubles': False, 'max_time': True}
+            traces.append(tr)
+            rep.count(1, key=(name, 'max_time', mt))
     from harness.drivers.c13_driver import conclude
     return conclude(rep, traces, ('C05_',))
